@@ -101,7 +101,10 @@ class FakeIndex:
                 if pep503(pname) == m.group(1):
                     rows = []
                     for fn in sorted(files):
-                        frag = "#sha256=" + hashlib.sha256(files[fn]).hexdigest() if self.with_hash else ""
+                        if self.with_hash == "md5":
+                            frag = "#md5=" + hashlib.md5(files[fn]).hexdigest()
+                        else:
+                            frag = "#sha256=" + hashlib.sha256(files[fn]).hexdigest() if self.with_hash else ""
                         rows.append('<a href="../../files/%s%s">%s</a><br/>' % (fn, frag, fn))
                     page = "<!DOCTYPE html><html><body><h1>Links for %s</h1>%s</body></html>" % (pname, "\n".join(rows))
                     return FakeResponse(url, 200, page.encode())
